@@ -12,9 +12,9 @@ EXTENDS Integers, Sequences, FiniteSets, TLC, Json
 GF16 == INSTANCE GF WITH W <- 16, Poly <- 69643, Gen <- 2, Reg <- 10
 P == INSTANCE GF2Poly
 
-ASSUME GF16!InitTables
-ASSUME GF16!TablesOK
-ASSUME GF16!FastMulOKOnBasis
+ASSUME GF16!InitTablesp(0)
+ASSUME GF16!TablesOKp(0)
+ASSUME GF16!FastMulOKOnBasisp(0)
 
 ASSUME TLCSet(1, ndJsonDeserialize("trace.ndjson"))
 Trace == TLCGet(1)
